@@ -102,16 +102,17 @@ def parse_dependencies_from_task_function(
             not isinstance(nodes, (PNode, PProvisionalNode))
             and are_all_nodes_python_nodes_without_hash
         ):
-            node_name = create_name_of_python_node(
-                NodeInfo(
-                    arg_name=parameter_name,
-                    path=(),
-                    value=value,
-                    task_path=task_path,
-                    task_name=task_name,
-                )
+            node_info = NodeInfo(
+                arg_name=parameter_name,
+                path=(),
+                value=value,
+                task_path=task_path,
+                task_name=task_name,
             )
-            dependencies[parameter_name] = PythonNode(value=value, name=node_name)
+            node_name = create_name_of_python_node(node_info)
+            dependencies[parameter_name] = PythonNode(
+                value=value, name=node_name, node_info=node_info
+            )
         else:
             dependencies[parameter_name] = nodes  # type: ignore[assignment]
     return dependencies
